@@ -33,7 +33,8 @@ func c14Gen(tier string, rng *rand.Rand) []c13Case {
 			}
 		}
 	}
-	return append(cs, c14MgrGenCases(tier, rng)...)
+	cs = append(cs, c14MgrGenCases(tier, rng)...)
+	return append(cs, c14MgrHealthGen(tier, rng)...)
 }
 
 func c14Probe(rng *rand.Rand, keys []uint32) []uint32 {
